@@ -65,6 +65,9 @@ def fe_leaf(binds, other=None):
             m = re.match(r"^(arg\d)\.0$", t[1][1])
             if m and m.group(1) in binds:
                 return binds[m.group(1)][t[2]]
+        # (*argN).0[i] read through a whole-value copy: elem(elem(load argN, "0"), i)
+        if t[0] == "elem" and isinstance(t[2], int) and isinstance(t[1], tuple) and t[1] and t[1][0] == "elem" and t[1][2] == "0" and isinstance(t[1][1], tuple) and t[1][1][0] == "load" and t[1][1][1] in binds:
+            return binds[t[1][1][1]][t[2]]
         if other is not None:
             return other(t)
         return None
